@@ -64,6 +64,10 @@ def items(tier):
         ("if", ("if", v("b1", "bool"), v("b2", "bool"), v("b3", "bool")), v("x4"), v("x5")),
         ("rshift", v("x1"), v("s2", "shift")), ("bnot", ("bnot", v("x1"))),
         ("sum2", ("prod2", ("c", -1), v("x1")), v("x2")), ("quot", ("c", 1), ("c", 3)),
+        # negation of numbers (not x is defined for every number) and double negation: not not x is bool(x), not x
+        ("lnot", v("x1")), ("lnot", ("lnot", v("x1"))), ("sum2", ("c", 1), ("lnot", ("lnot", v("x1")))),
+        ("floordiv", v("x2"), ("lnot", ("lnot", v("x1")))), ("if", v("b1", "bool"), ("lnot", ("lnot", v("x2"))), v("x3")),
+        ("prod2", ("lnot", v("x1")), v("x2")), ("lnot", ("lnot", ("lnot", v("x1")))), ("tuple2", ("lnot", ("lnot", v("x1"))), v("x1")),
     ]
     for d in descs:
         if not well_typed(d):
@@ -72,7 +76,7 @@ def items(tier):
         if k not in seen:
             seen.add(k)
             out.append(("skel", d))
-    out += [("argorder", n) for n in range(0, 9)]
+    out += [("argorder", n) for n in range(0, 12)]
     return out
 
 
@@ -212,7 +216,8 @@ def check_argorder(n_vars):
     variables include names of Python builtins, listings may name variables the expression does not use."""
     import pymbolic
     res = ItemResult(item=f"argorder variables={n_vars}", sample={"variables": n_vars})
-    pool = ["q", "a", "zeta", "max", "B", "id", "b2", "sum"][:n_vars]
+    # x10 / x2 / x1: lexicographic name order differs from "natural" numeric order
+    pool = ["q", "a", "zeta", "max", "B", "id", "b2", "sum", "x10", "x2", "x1"][:n_vars]
     coeff = {n: (i + 2) * 1000 + 7 for i, n in enumerate(pool)}
     expr = p.Sum(tuple(p.Product((coeff[n], p.Variable(n))) for n in pool)) if len(pool) > 1 else (
         p.Product((coeff[pool[0]], p.Variable(pool[0]))) if pool else 5)
